@@ -160,6 +160,8 @@ func (c02) Run(c *Ctx, i int) CaseResult {
 	res.Nontrivial = fc.Fed.TotalCalls() >= 2
 	res.Counters = map[string]int{"service_calls": fc.Fed.TotalCalls()}
 	fails := CheckCalls(fc)
+	// L1: the plan the calls came from against the planner model
+	planFails := PlanCorrFails(c, fc, in)
 	if len(fails) > 0 && i >= len(FedCorpus) {
 		// minimise: keep failing the same oracle
 		q := ShrinkQuery(in.Query, func(q string) bool {
@@ -182,7 +184,7 @@ func (c02) Run(c *Ctx, i int) CaseResult {
 	if len(fails) > 3 {
 		fails = fails[:3]
 	}
-	res.Fails = fails
+	res.Fails = append(fails, planFails...)
 	if i%211 == 0 || i < 2 {
 		var calls []interface{}
 		for _, s := range fc.Fed.Services {
